@@ -130,7 +130,9 @@ HASHF = {"MD5Sum": hashlib.md5, "SHA1": hashlib.sha1, "SHA256": hashlib.sha256, 
 def render_upstream(v):
     """-> (files: path -> (bytes, mtime), meta) for one repository."""
     files = {}
-    date = BASE_DATE + 1000 * v["serial"]
+    # consecutive versions are alternately one second and ~1000 seconds apart: a content change of the same
+    # size whose Last-Modified moves by a single second is inside C08's quantifier
+    date = BASE_DATE + 1000 * (v["serial"] // 2) + (v["serial"] % 2)
     meta = {"indices": {}, "pool": {}}
     for cn, c in v["codenames"].items():
         entries = []  # (name, bytes)
